@@ -10,12 +10,17 @@ GROUPS = [
     Group(name="C09/get_param_index[bounded]", unity="C09/u_param.cpp", entry="h_param_index", functions=[("get_param_index", M, "harness, bounded")],
           unwind=8, checks=CH, timeout=600, bounded="parameter lists of two names of 1..2 characters over {a,b}, looked-up name of 1..2 characters"),
 ]
-LEVEL = "other"
-EXPLANATION = ("Partial and bounded: macro expansion is checked to be character-for-character substitution for bounded argument/body sizes, and parameter-name lookup to be exact-match; "
-               "the equivalence of a whole program with its hand-expanded form (.define, equ, .include, nested macros, labels) is a text-to-text property outside CBMC's reach (DESIGN 1, 4 C09).")
-TRUSTED = ["the character reader is replaced by a scripted stream contract"]
+GROUPS.append(Group(name="C09/parse_repeat", unity="C09/u_repeat.cpp", entry="h_repeat",
+                    functions=[("parse_repeat", "core/directives.cpp", "harness+2 loop-contracts (function text extracted verbatim): any count, any body length"), ("AsmContext::assemble", "core/AsmContext.cpp", "contract: the body"), ("add_bin8", "core/add_bin.cpp", "contract (discharged by C05/add_bin8)")],
+                    loops="C09/repeat.loops.json", expected_loops=2, unwind=14, checks=["--bounds-check", "--pointer-check"], timeout=900))
+LEVEL = "proof"
+EXPLANATION = ("Contract proof (two DFCC loop contracts, any count and any body length) that .repeat n emits exactly n - 1 further copies of its body, byte for byte, at consecutive addresses; "
+               "bounded model checking that macro expansion is character-for-character substitution for bounded argument/body sizes and that parameter-name lookup is exact-match; "
+               "the equivalence of a whole program with its hand-expanded form (.define, equ, .include, nested macros, labels) is a text-to-text property outside CBMC's reach (DESIGN 1, 4 C09), "
+               "so the property is proved for .repeat only.")
+TRUSTED = ["the character reader is replaced by a scripted stream contract", "the nested assemble() is the contract 'emits a body of LEN arbitrary bytes and reports .endr'; add_bin8 is its C05 contract"]
 MANIFEST = {
-    "text": "Partial, bounded: parameter substitution of macros_expand_params is exact textual replacement and get_param_index matches whole names only, for bounded argument and name lengths.",
-    "note": ".define/equ/.include transparency, nesting and .repeat copies are not decided (see DESIGN 4 C09 gap).",
-    "technique": "bounded model checking (CBMC, complete unwinding) of core/Macros.cpp - labelled bounded, not proved",
+    "text": ".repeat n emits n consecutive copies of its body (unbounded proof: any count, any body length); parameter substitution of macros_expand_params is exact textual replacement and get_param_index matches whole names only, for bounded argument and name lengths.",
+    "note": ".define/equ/.include transparency and nesting are not decided (see DESIGN 4 C09 gap); the macro groups are bounded stand-ins.",
+    "technique": "CBMC DFCC loop contracts on parse_repeat (core/directives.cpp, extracted verbatim); bounded model checking (complete unwinding) of core/Macros.cpp",
 }
